@@ -19,6 +19,19 @@ def routing : Handler
       some (outOutcome (matchAdapter m a path method qa ws))
     | some none, _, _, _, _, _ => some "UNSUPPORTED"
     | _, _, _, _, _, _ => some badArgs
+  | "route.matchn", [m, a, qa, ws, probes] =>
+    match mapArg m, adapterArg a, qaArg qa, optArg boolArg ws with
+    | some (some m), some a, some qa, some ws =>
+      let outs := (splitStr probes ",").map fun pr =>
+        match pr.splitOn ":" with
+        | [p, meth] =>
+          match unhexStr p, unhexStr meth with
+          | some p, some meth => outOutcome (matchAdapter m a p (some meth) qa ws)
+          | _, _ => badArgs
+        | _ => badArgs
+      some ("|".intercalate outs)
+    | some none, _, _, _ => some "UNSUPPORTED"
+    | _, _, _, _ => some badArgs
   | "route.kernel", [m, target] =>
     match mapArg m, unhexStr target with
     | some (some m), some target =>
